@@ -49,12 +49,15 @@ XProg(classes, comps, eqs, ieqs) == [name |-> "M", classes |-> classes, comps |-
 IsClass(P, ty) == \E i \in DOMAIN P.classes : P.classes[i].name = ty
 ClassNamed(P, ty) == P.classes[CHOOSE i \in DOMAIN P.classes : P.classes[i].name = ty]
 
-FV(parts, shapes, c) == [parts |-> parts, shapes |-> shapes, type |-> c.type, prefix |-> c.prefix, mods |-> c.mods]
+(* sibs: the components of the class the variable is declared in (name, dims) - the names its attribute expressions may
+   mention besides literals; for a top-level variable the top-level components *)
+FV(parts, shapes, c, sibs) == [parts |-> parts, shapes |-> shapes, type |-> c.type, prefix |-> c.prefix, mods |-> c.mods, sibs |-> sibs]
+SibsOf(comps) == [i \in DOMAIN comps |-> [name |-> comps[i].name, dims |-> comps[i].dims]]
 FlatVars(P) == Flatten([i \in DOMAIN P.comps |->
     LET c == P.comps[i] IN
     IF IsClass(P, c.type)
-    THEN LET cl == ClassNamed(P, c.type) IN [j \in DOMAIN cl.comps |-> FV(<<c.name, cl.comps[j].name>>, <<c.dims, cl.comps[j].dims>>, cl.comps[j])]
-    ELSE <<FV(<<c.name>>, <<c.dims>>, c)>>])
+    THEN LET cl == ClassNamed(P, c.type) IN [j \in DOMAIN cl.comps |-> FV(<<c.name, cl.comps[j].name>>, <<c.dims, cl.comps[j].dims>>, cl.comps[j], SibsOf(cl.comps))]
+    ELSE <<FV(<<c.name>>, <<c.dims>>, c, <<>>)>>])
 
 RECURSIVE JoinDot(_)
 JoinDot(parts) == IF Len(parts) = 1 THEN parts[1] ELSE parts[1] \o "." \o JoinDot(Tail(parts))
@@ -92,11 +95,33 @@ ScalarNames(fv, isDer) == LET tp == Tuples(fv) IN [k \in DOMAIN tp |-> ScalarNam
 PosIn(dims, ix) == IF Len(dims) = 0 THEN 1 ELSE IF Len(dims) = 1 THEN ix[1] ELSE (ix[1] - 1) * dims[2] + ix[2]
 OwnIdx(fv, idx) == SubSeq(idx, Len(idx) - Len(OwnDims(fv)) + 1, Len(idx))
 
-AttrValue(fv, a, cx) == Val(ModOf(fv, a).e, cx)           \* scalar, or shaped like the own dimensions
+(* The attribute expression of a variable declared inside a component class is written in the scope of that class:
+   a sibling name s means, for the instance with outer index o, the variable  outer[o].s .  InstEnv binds every sibling
+   to the slice of the flat variable outer.s that belongs to that instance.                                        *)
+IsNested(fv) == Len(fv.parts) = 2
+OuterDims(fv) == fv.shapes[1]
+InstEnv(fv, idx, env) ==
+    IF ~IsNested(fv) THEN env
+    ELSE LET opos == PosIn(OuterDims(fv), SubSeq(idx, 1, Len(OuterDims(fv))))
+             names == {fv.sibs[i].name : i \in DOMAIN fv.sibs}
+             dimsOf(n) == fv.sibs[CHOOSE i \in DOMAIN fv.sibs : fv.sibs[i].name = n].dims
+         IN  [x \in (DOMAIN env) \cup names |->
+                IF x \in names
+                THEN LET ne == Numel(dimsOf(x)) IN V(dimsOf(x), [k \in 1..ne |-> env[fv.parts[1] \o "." \o x].d[(opos - 1) * ne + k]])
+                ELSE env[x]]
 AttrElem(fv, a, idx, cx) ==
     IF ~HasMod(fv, a) THEN Default(a)
-    ELSE LET v == AttrValue(fv, a, cx)
+    ELSE LET v == Val(ModOf(fv, a).e, [cx EXCEPT !.env = InstEnv(fv, idx, cx.env)])        \* scalar, or shaped like the own dimensions
          IN  IF IsErr(v) THEN Und ELSE IF IsScalar(v) THEN v.d[1] ELSE v.d[PosIn(OwnDims(fv), OwnIdx(fv, idx))]
+
+(* what the generator stores: the expression over the FLAT symbols (sibling s renamed to outer.s), one matrix for all instances *)
+RECURSIVE Qualify(_, _, _)
+Qualify(e, prefix, names) ==
+    IF e.k = "ref" /\ e.n \in names THEN [e EXCEPT !.n = prefix \o "." \o e.n]
+    ELSE [e EXCEPT !.a = [i \in DOMAIN e.a |-> Qualify(e.a[i], prefix, names)]]
+AttrValue(fv, a, cx) ==
+    IF IsNested(fv) THEN Val(Qualify(ModOf(fv, a).e, fv.parts[1], {fv.sibs[i].name : i \in DOMAIN fv.sibs}), cx)
+    ELSE Val(ModOf(fv, a).e, cx)
 
 -----------------------------------------------------------------------------
 (* operational: Model._expand_vectors for one variable *)
@@ -148,7 +173,12 @@ I(i) == ILit(i)
 L(n, d) == Lit(Q(n, d))
 Rp == Ref("p")
 Rw == Ref("w")
+RW == Ref("W")
 ParamsCtx == << Param("p", RI(2)), Comp("w", "Real", "parameter", <<2>>, <<Mod("value", Arr(<<L(3, 2), L(5, 2)>>))>>) >>
+(* a parameter array W shaped like the array under test, with pairwise distinct (non-symmetric) declared elements *)
+DistinctLits(dims) == IF Len(dims) = 1 THEN Arr([j \in 1..dims[1] |-> L(2 * j + 1, 2)])
+                      ELSE Arr([i \in 1..dims[1] |-> Arr([j \in 1..dims[2] |-> L(2 * ((i - 1) * dims[2] + j) + 1 + (i - 1), 2)])])
+ParamsFor(dims) == ParamsCtx \o <<Comp("W", "Real", "parameter", dims, <<Mod("value", DistinctLits(dims))>>)>>
 
 ArrMods(dims) ==       \* attribute patterns for an array with own dimensions dims: [mods, tag]
     (IF dims = <<2>> THEN
@@ -167,7 +197,10 @@ ArrMods(dims) ==       \* attribute patterns for an array with own dimensions di
         {<< <<Mod("start", Arr(<<Arr(<<I(1), I(2)>>), Arr(<<I(3), I(4)>>), Arr(<<I(5), I(6)>>)>>))>>, "attr-matrix-lit">>}
      ELSE {})
     \cup {<< <<>>, "attr-none">>, << <<EachMod("min", Un("-", I(2))), EachMod("nominal", I(3))>>, "attr-each">>,
-          << <<EachMod("max", Bin("+", Rp, I(1)))>>, "attr-each-mx">>}
+          << <<EachMod("max", Bin("+", Rp, I(1)))>>, "attr-each-mx">>,
+          (* parameter-dependent (symbolic) attributes shaped like the array, for every shape *)
+          << <<Mod("max", Bin("*", Rp, RW)), Mod("min", Un("-", RW))>>, IF Len(dims) = 1 THEN "attr-array-mx" ELSE "attr-matrix-mx">>,
+          << <<Mod("nominal", RW), Mod("start", Bin("+", RW, Rp))>>, IF Len(dims) = 1 THEN "attr-array-mx" ELSE "attr-matrix-mx">>}
 
 Shapes(tier) == IF tier = "quick" THEN {<<2>>, <<3>>, <<2, 3>>, <<2, 2>>} ELSE {<<1>>, <<2>>, <<3>>, <<2, 2>>, <<2, 3>>, <<3, 2>>}
 Kinds == {"alg", "state", "input", "parameter", "output", "output-state"}
@@ -188,14 +221,20 @@ ArrEqs(dims, kd) ==
 
 TopItem(dims, kd, mt) ==
     [fam |-> "vexp",
-     prog |-> XProg(<<>>, ParamsCtx \o <<Real("x"), Comp("a", "Real", PrefixOfKind(kd), dims, mt[1]), RealA("b", dims), RealA("c", dims)>>,
+     prog |-> XProg(<<>>, ParamsFor(dims) \o <<Real("x"), Comp("a", "Real", PrefixOfKind(kd), dims, mt[1]), RealA("b", dims), RealA("c", dims)>>,
                     ArrEqs(dims, kd), IF IsStateKind(kd) THEN <<Eq(Ref("a"), Ref("b"))>> ELSE <<>>),
      states |-> IF IsStateKind(kd) THEN {"a"} ELSE {},
      extra |-> {"top", mt[2], "kind:" \o kd, IF Len(dims) = 1 THEN "1-D" ELSE "2-D"}]
 
 (* arrays inside (arrays of) components *)
-SubClass(innerDims, mods) == Class("Sub", <<Comp("v", "Real", "", innerDims, mods), Real("s"), Comp("k", "Integer", "", <<>>, <<Mod("max", I(7))>>)>>,
+(* the class has its own parameter array g (a list-valued "value" with distinct elements) that v's attributes may mention *)
+SubClass(innerDims, mods) == Class("Sub", <<Comp("g", "Real", "parameter", innerDims, <<Mod("value", DistinctLits(innerDims))>>),
+                                            Comp("v", "Real", "", innerDims, mods), Real("s"), Comp("k", "Integer", "", <<>>, <<Mod("max", I(7))>>)>>,
                                    <<Eq(Idx("v", <<I(1)>>), Bin("*", I(2), Ref("s")))>>)
+NestedMods(innerDims) ==
+    {m \in ArrMods(innerDims) : m[2] \in {"attr-array-lit", "attr-matrix-lit", "attr-none", "attr-each"}}
+    \cup {<< <<Mod("max", Bin("*", I(2), Ref("g"))), Mod("min", Un("-", Ref("g")))>>, "attr-nested-mx">>,
+          << <<Mod("start", Ref("g")), Mod("nominal", DistinctLits(innerDims))>>, "attr-nested-mx">>}
 NestedItem(outerDims, innerDims, mt, st) ==
     [fam |-> "vexp",
      prog |-> XProg(<<SubClass(innerDims, mt[1])>>, ParamsCtx \o <<Comp("sub", "Sub", "", outerDims, <<>>), Real("x")>>,
@@ -218,9 +257,10 @@ MiscItems ==
 
 Items(tier) ==
     {TopItem(d, kd, mt) : d \in Shapes(tier), kd \in Kinds, mt \in UNION {ArrMods(dd) : dd \in Shapes(tier)}}
-    \cup ({NestedItem(od, id, mt, st) : od \in {<<>>, <<2>>}, id \in {<<2>>, <<2, 2>>},
-              mt \in {m \in ArrMods(<<2>>) \cup ArrMods(<<2, 2>>) : m[2] \in {"attr-array-lit", "attr-matrix-lit", "attr-none", "attr-each"}}, st \in BOOLEAN}
-         \ {NestedItem(<<2>>, <<2, 2>>, mt, st) : mt \in ArrMods(<<2, 2>>), st \in BOOLEAN})      \* 3 dimensions: MX cannot hold it (NotImplementedError without expansion)
+    (* arrays inside component instances: scalar instance and arrays of instances, square and NON-square nesting (sub[2].v[3], sub[3].v[2]);
+       a 2-D array inside an array of instances would need 3 dimensions: MX cannot hold it (NotImplementedError without expansion) *)
+    \cup UNION {{NestedItem(od[1], od[2], mt, st) : mt \in NestedMods(od[2]), st \in BOOLEAN} :
+                  od \in {<< <<>>, <<2>> >>, << <<>>, <<2, 3>> >>, << <<2>>, <<2>> >>, << <<2>>, <<3>> >>, << <<3>>, <<2>> >>}}
     \cup MiscItems
 
 (* keep the well-shaped ones: attribute values scalar or shaped like the own dimensions; parameters get no min/max of other parameters' arrays etc. *)
@@ -232,7 +272,7 @@ ShapeOK(it) == LET fvs == FlatVars(it.prog)
                    cx  == AttrCx(it.prog, 1)
                IN  \A i \in DOMAIN fvs : \A j \in DOMAIN ATTRS :
                       HasMod(fvs[i], ATTRS[j]) =>
-                          LET v == AttrValue(fvs[i], ATTRS[j], cx) IN ~IsErr(v) /\ (IsScalar(v) \/ v.sh = OwnDims(fvs[i]))
+                          LET v == AttrValue(fvs[i], ATTRS[j], cx) IN ~IsErr(v) /\ (IsScalar(v) \/ v.sh = OwnDims(fvs[i]) \/ v.sh = AllDims(fvs[i]))
 (* a parameter's own attributes must not depend on other parameters through arrays it cannot have; inputs / parameters take no "value" *)
 Family == {it \in Items(Tier) : ShapeOK(it)}
 
